@@ -1,0 +1,160 @@
+//go:build verif
+
+package fontscan
+
+import (
+	"io"
+
+	"github.com/go-text/typesetting/font"
+	ot "github.com/go-text/typesetting/font/opentype"
+	"github.com/go-text/typesetting/language"
+)
+
+// This file only exists under the "verif" build tag. It exports
+// unexported functions and state for runtime monitors; it adds no behaviour.
+
+// VerifFileFootprints mirrors fileFootprints.
+type VerifFileFootprints struct {
+	Path       string
+	Footprints []Footprint
+	ModTime    int64
+}
+
+// VerifIndex is an opaque handle on a systemFontsIndex.
+type VerifIndex struct{ index systemFontsIndex }
+
+// Files returns a copy of the index content.
+func (vi VerifIndex) Files() []VerifFileFootprints {
+	out := make([]VerifFileFootprints, len(vi.index))
+	for i, ff := range vi.index {
+		out[i] = VerifFileFootprints{Path: ff.path, Footprints: ff.footprints, ModTime: int64(ff.modTime)}
+	}
+	return out
+}
+
+// IsNil reports whether the underlying index is nil.
+func (vi VerifIndex) IsNil() bool { return vi.index == nil }
+
+// Flatten calls systemFontsIndex.flatten.
+func (vi VerifIndex) Flatten() []Footprint { return vi.index.flatten() }
+
+// VerifNewIndex builds an index from exported values.
+func VerifNewIndex(files []VerifFileFootprints) VerifIndex {
+	if files == nil {
+		return VerifIndex{}
+	}
+	out := make(systemFontsIndex, len(files))
+	for i, ff := range files {
+		out[i] = fileFootprints{path: ff.Path, footprints: ff.Footprints, modTime: timeStamp(ff.ModTime)}
+	}
+	return VerifIndex{out}
+}
+
+func VerifScan(logger Logger, prev VerifIndex, dirs ...string) (VerifIndex, error) {
+	out, err := scanFontFootprints(logger, prev.index, dirs...)
+	return VerifIndex{out}, err
+}
+
+func VerifSerialize(vi VerifIndex, w io.Writer) error { return vi.index.serializeTo(w) }
+
+func VerifDeserialize(r io.Reader) (VerifIndex, error) {
+	out, err := deserializeIndex(r)
+	return VerifIndex{out}, err
+}
+
+func VerifSerializeToFile(vi VerifIndex, path string) error { return vi.index.serializeToFile(path) }
+
+func VerifDeserializeFile(path string) (VerifIndex, error) {
+	out, err := deserializeIndexFile(path)
+	return VerifIndex{out}, err
+}
+
+func VerifRefreshSystemFontsIndex(logger Logger, cachePath string) (VerifIndex, error) {
+	out, err := refreshSystemFontsIndex(logger, cachePath)
+	return VerifIndex{out}, err
+}
+
+func VerifCoveragesFromCmap(cmap font.Cmap) (RuneSet, ScriptSet) {
+	rs, ss, _ := newCoveragesFromCmap(cmap, nil)
+	return rs, ss
+}
+
+func VerifFootprintFromFont(f *font.Font, location Location, md font.Description) Footprint {
+	return newFootprintFromFont(f, location, md)
+}
+
+func VerifFootprintFromLoader(ld *ot.Loader, isUserProvided bool) (Footprint, error) {
+	fp, _, err := newFootprintFromLoader(ld, isUserProvided, scanBuffer{})
+	return fp, err
+}
+
+func VerifLangsetFromCoverage(rs RuneSet) LangSet { return newLangsetFromCoverage(rs) }
+
+func (fp Footprint) VerifIsUserProvided() bool { return fp.isUserProvided }
+
+func (fp *Footprint) VerifSetUserProvided(b bool) { fp.isUserProvided = b }
+
+func (fp Footprint) VerifSerialize() []byte { return fp.serializeTo(nil) }
+
+func (fp *Footprint) VerifDeserialize(data []byte) (int, error) { return fp.deserializeFrom(data) }
+
+func (a RuneSet) VerifIncludes(b RuneSet) bool { return a.includes(b) }
+
+func (rs RuneSet) VerifSerialize() []byte { return rs.serialize() }
+
+func (rs *RuneSet) VerifDeserialize(data []byte) (int, error) { return rs.deserializeFrom(data) }
+
+func (ss ScriptSet) VerifContains(s language.Script) bool { return ss.contains(s) }
+
+func (ss *ScriptSet) VerifInsert(s language.Script) { ss.insert(s) }
+
+func (ss ScriptSet) VerifSerialize() []byte { return ss.serialize() }
+
+func (ss *ScriptSet) VerifDeserialize(data []byte) (int, error) { return ss.deserializeFrom(data) }
+
+func (ls LangSet) VerifSerialize() []byte { return ls.serialize() }
+
+func (ls *LangSet) VerifDeserialize(data []byte) (int, error) { return ls.deserializeFrom(data) }
+
+// VerifRetainsBestMatches calls fontSet.retainsBestMatches on footprints
+// carrying the given aspects; candidates are indices into aspects.
+func VerifRetainsBestMatches(aspects []font.Aspect, candidates []int, query font.Aspect) []int {
+	fs := make(fontSet, len(aspects))
+	for i, a := range aspects {
+		fs[i].Aspect = a
+	}
+	return fs.retainsBestMatches(candidates, query)
+}
+
+// VerifCandidates is a snapshot of the candidate lists of a FontMap for its
+// current query and script.
+type VerifCandidates struct {
+	WithoutFallback, WithFallback, Manual, Script []int
+	Database                                      []Footprint
+	Built                                         bool
+}
+
+// VerifCandidates builds (as ResolveFace would) and returns the candidate lists.
+func (fm *FontMap) VerifCandidates() VerifCandidates {
+	fm.buildCandidates()
+	cp := func(s []int) []int { return append([]int(nil), s...) }
+	return VerifCandidates{
+		WithoutFallback: cp(fm.candidates.withoutFallback),
+		WithFallback:    cp(fm.candidates.withFallback),
+		Manual:          cp(fm.candidates.manual),
+		Script:          cp(fm.scriptMap[fm.script]),
+		Database:        append([]Footprint(nil), fm.database...),
+		Built:           fm.built,
+	}
+}
+
+// VerifAppendFootprints adds raw footprints (as UseSystemFonts would).
+func (fm *FontMap) VerifAppendFootprints(fps ...Footprint) {
+	fm.appendFootprints(fps...)
+	fm.built = false
+	fm.lru.Clear()
+}
+
+func VerifIsGenericFamily(family string) bool { return isGenericFamily(family) }
+
+func VerifIgnoreFontFile(name string) bool { return ignoreFontFile(name) }
